@@ -221,6 +221,7 @@ def initStep (st : ISt) (t : List String) (implObs : String) : Option (ISt × St
       let ok := hash.drop 4 = (st.env.nodeHash (hash.take 4) p.nodeId) && hash.length = 20
       some ({ st with attempts := setS st.attempts att pc }, if ok then implObs else "hash-mismatch", "-")
     | _, _, _ => some (st, "bad-op", "-")
+  | "iexpect" :: _ => some (st, "ok", "-")
   | op :: rest =>
     if op ∉ ["iinit", "ideliver", "itick", "isend"] then none else
     let att := if op = "ideliver" then rest.getD 1 "" else rest.getD 0 ""
